@@ -377,6 +377,10 @@ def run(ctx, report):
     R15 = report.rule('C02.D15', 'the direct-offset rows (A0-A3) are offered for an absolute address only: the accepting branch of asm_candidates evaluated on operands with no register, '
                       'with a register of coefficient 1 / 2 / 4 / 8 and with the merged coefficients 3 / 5 / 9', floor=8)
     moffs_guard_rule(R15, X)
+    R16 = report.rule('C02.D16', 'a segment override in `SIZE PTR seg:[..]` is dropped only when every encoding of the address has that segment as its default (p_ptrformula_2 evaluated on segment '
+                      'x address shape, ebp / esp as base, as scaled index and beside another unscaled register): the candidates address the segment the line names', floor=100)
+    from .c03 import ptrformula_rule
+    ptrformula_rule(ctx, R16, X, semantic=True)
     R3 = report.rule('C02.D3', 'one operand-size mode drives the 0x66 prefix, the immediate width and the emitted candidate', floor=4)
     ac = arch.method('x86_mn', 'asm_candidates')
     prefix_guard = None
